@@ -226,6 +226,180 @@ def specialise_mixins(trees: Dict[str, ast.Module]) -> int:
     return n
 
 
+def inline_decorators(trees: Dict[str, ast.Module]) -> int:
+    """A function decorated with a *new* wrapper-making decorator reads as the wrapper with the function called inside it.
+
+    ``@D(a, k=v) def m(self): BODY`` with ``def D(p, k=..): def decorate(f): def wrapper(self): W; return wrapper; return decorate``
+    (or the plain form ``def D(f): def wrapper(..): W; return wrapper``) becomes ``def m(self): W[p := a, k := v, f := m__undecorated]``
+    next to ``def m__undecorated(self): BODY`` -- a new private helper, which the helper inlining then puts back in place.  Only
+    decorators that are not in the inventory, whose arguments are constants or dotted names and whose wrapper takes the same
+    positional parameters as the function (or passes ``*args, **kwargs`` through) are handled; anything else is left as is."""
+    from .oracles.inventory import FUNCTIONS
+    n = 0
+
+    def simple(e):
+        while isinstance(e, ast.Attribute):
+            e = e.value
+        return isinstance(e, (ast.Name, ast.Constant)) or (isinstance(e, ast.UnaryOp) and isinstance(e.operand, ast.Constant))
+
+    def only_returns(fn, name=None):
+        """body of ``fn`` is: [docstring], one nested def ``name``-returning"""
+        body = [x for x in fn.body if not (isinstance(x, ast.Expr) and isinstance(x.value, ast.Constant))]
+        if len(body) == 2 and isinstance(body[0], ast.FunctionDef) and isinstance(body[1], ast.Return) \
+                and isinstance(body[1].value, ast.Name) and body[1].value.id == body[0].name:
+            return body[0]
+        return None
+
+    def plain_params(a):
+        return not (a.vararg or a.kwarg or a.kwonlyargs or a.posonlyargs)
+
+    for mod, tree in trees.items():
+        decos = {}
+        for st in tree.body:
+            if isinstance(st, ast.FunctionDef) and '%s:%s' % (mod, st.name) not in FUNCTIONS and not st.decorator_list:
+                inner = only_returns(st, None)
+                if inner is None:
+                    continue
+                inner2 = only_returns(inner, None)
+                if inner2 is not None and len(inner.args.args) == 1 and plain_params(inner.args):
+                    decos[st.name] = ('factory', st, inner.args.args[0].arg, inner2)
+                elif len(st.args.args) == 1 and plain_params(st.args):
+                    decos[st.name] = ('plain', st, st.args.args[0].arg, inner)
+        if not decos:
+            continue
+
+        def rewrite(container, fn, is_method):
+            nonlocal n
+            if len(fn.decorator_list) != 1:
+                return None
+            d = fn.decorator_list[0]
+            env = {}
+            if isinstance(d, ast.Call) and isinstance(d.func, ast.Name) and d.func.id in decos and decos[d.func.id][0] == 'factory':
+                kind, dfn, fparam, wrapper = decos[d.func.id]
+                a = dfn.args
+                if not plain_params(a) or any(isinstance(x, ast.Starred) for x in d.args) or any(k.arg is None for k in d.keywords):
+                    return None
+                names = [x.arg for x in a.args]
+                if len(d.args) > len(names):
+                    return None
+                for nm, v in zip(names, d.args):
+                    env[nm] = v
+                for k in d.keywords:
+                    if k.arg not in names or k.arg in env:
+                        return None
+                    env[k.arg] = k.value
+                defaults = dict(zip(names[len(names) - len(a.defaults):], a.defaults))
+                for nm in names:
+                    if nm not in env:
+                        if nm not in defaults:
+                            return None
+                        env[nm] = defaults[nm]
+                if not all(simple(v) for v in env.values()):
+                    return None
+            elif isinstance(d, ast.Name) and d.id in decos and decos[d.id][0] == 'plain':
+                kind, dfn, fparam, wrapper = decos[d.id]
+            else:
+                return None
+            # the wrapper: optional @functools.wraps(f), same positional parameters as the function
+            for wd in wrapper.decorator_list:
+                if not (isinstance(wd, ast.Call) and ast.unparse(wd.func) in ('functools.wraps', 'wraps', 'six.wraps')):
+                    return None
+            wa, fa = wrapper.args, fn.args
+            if not plain_params(fa) or fa.defaults:
+                return None
+            passthrough = bool(wa.vararg and wa.kwarg and not wa.kwonlyargs and not wa.defaults)
+            if passthrough:
+                if len(wa.args) > len(fa.args):
+                    return None
+            elif not plain_params(wa) or wa.defaults or len(wa.args) != len(fa.args):
+                return None
+            # names bound in the wrapper must not clash with the factory parameters or the function's parameters
+            wbound = {x.id for x in ast.walk(wrapper) if isinstance(x, ast.Name) and isinstance(x.ctx, (ast.Store, ast.Del))}
+            if wbound & (set(env) | {fparam}) or any(isinstance(x, (ast.FunctionDef, ast.Lambda, ast.ClassDef, ast.Global, ast.Nonlocal))
+                                                      for st_ in wrapper.body for x in ast.walk(st_)):
+                return None
+            ren = {w.arg: f_.arg for w, f_ in zip(wa.args, fa.args)}
+            extra = [f_.arg for f_ in fa.args[len(wa.args):]]
+            if wbound & set(extra):
+                return None
+            undec = fn.name + '__undecorated'
+            ok = [True]
+
+            class S(ast.NodeTransformer):
+                def visit_Call(self_, c):
+                    if isinstance(c.func, ast.Name) and c.func.id == fparam:
+                        c = self_.generic_visit_args(c)
+                        args = list(c.args)
+                        if passthrough:
+                            # f(self, *args, **kwargs) -> f(self, <the function's own remaining parameters>)
+                            if not (args and isinstance(args[-1], ast.Starred) and isinstance(args[-1].value, ast.Name)
+                                    and args[-1].value.id == wa.vararg.arg and len(c.keywords) == 1 and c.keywords[0].arg is None
+                                    and isinstance(c.keywords[0].value, ast.Name) and c.keywords[0].value.id == wa.kwarg.arg):
+                                ok[0] = False
+                                return c
+                            args = args[:-1] + [ast.Name(id=x, ctx=ast.Load()) for x in extra]
+                            kws = []
+                        else:
+                            kws = c.keywords
+                        if is_method:
+                            if not (args and isinstance(args[0], ast.Name) and args[0].id == fa.args[0].arg):
+                                ok[0] = False
+                                return c
+                            return ast.copy_location(ast.Call(func=ast.Attribute(value=args[0], attr=undec, ctx=ast.Load()),
+                                                              args=args[1:], keywords=kws), c)
+                        return ast.copy_location(ast.Call(func=ast.Name(id=undec, ctx=ast.Load()), args=args, keywords=kws), c)
+                    return self_.generic_visit(c)
+
+                def generic_visit_args(self_, c):
+                    c.args = [self_.visit(x) for x in c.args]
+                    for k in c.keywords:
+                        k.value = self_.visit(k.value)
+                    return c
+
+                def visit_Name(self_, x):
+                    if isinstance(x.ctx, ast.Load):
+                        if x.id in env:
+                            return ast.copy_location(copy.deepcopy(env[x.id]), x)
+                        if x.id == fparam:
+                            ok[0] = False       # the function escapes (stored, passed on): not a plain wrapper
+                        if passthrough and x.id in (wa.vararg.arg, wa.kwarg.arg):
+                            ok[0] = False
+                    if x.id in ren:
+                        x.id = ren[x.id]
+                    return x
+            new_body = [S().visit(copy.deepcopy(x)) for x in wrapper.body]
+            if not ok[0]:
+                return None
+            orig = copy.deepcopy(fn)
+            orig.name = undec
+            orig.decorator_list = []
+            new = copy.deepcopy(fn)
+            new.decorator_list = []
+            doc = [x for x in fn.body[:1] if isinstance(x, ast.Expr) and isinstance(x.value, ast.Constant) and isinstance(x.value.value, str)]
+            new.body = doc + new_body
+            for x in ast.walk(new):
+                if hasattr(x, 'lineno') and x is not new:
+                    pass
+            n += 1
+            return new, orig
+
+        def visit_container(container, is_class):
+            out = []
+            for st in container.body:
+                if isinstance(st, ast.FunctionDef) and st.decorator_list:
+                    r = rewrite(container, st, is_class and bool(st.args.args))
+                    if r is not None:
+                        out.extend(r)
+                        continue
+                if isinstance(st, ast.ClassDef):
+                    visit_container(st, True)
+                out.append(st)
+            container.body = out
+        visit_container(tree, False)
+        ast.fix_missing_locations(tree)
+    return n
+
+
 def canonical_imports(trees: Dict[str, ast.Module], pkg: str = 'pynetdicom2') -> int:
     """One spelling for imports of the package's own modules: ``import pkg.mod as x`` / ``from pkg import mod as x`` /
     ``from . import mod as x`` all become ``from . import mod`` and every reference ``x.`` becomes ``mod.``;
